@@ -8,8 +8,8 @@ pub fn replay(out: &mut Out, extra: &[String]) {
     let text = std::fs::read_to_string(&extra[0]).expect("ops file");
     let mut s = Sess::new();
     for line in text.lines() {
-        let r = s.apply(line);
-        out.emit(line, &r);
+        let (op, r) = s.apply2(line);
+        out.emit(&op, &r);
     }
 }
 
@@ -93,8 +93,8 @@ pub fn stimulus(rng: &mut Rng) -> String {
 }
 
 pub fn run_line(out: &mut Out, s: &mut Sess, line: &str) -> String {
-    let r = s.apply(line);
-    out.emit(line, &r);
+    let (op, r) = s.apply2(line);
+    out.emit(&op, &r);
     let key = line.split(' ').next().unwrap_or("");
     out.count(key);
     out.distinct_case(line);
